@@ -116,6 +116,7 @@ class World:
         self.log = []
         self.kernel_steps = 0
         self.steps_this_instant = 0
+        self.puts_now = 0      # puts issued in the current instant (alphabet bound for subjects that spawn a timer per put)
         self.mon = None
         self.crashed = None
         k = spec.kind
@@ -260,6 +261,7 @@ class World:
                     obs["ret"] = self.obj.put(t.ev, it)
                 t.status = USED
                 self.items.append(rec)
+                self.puts_now += 1
                 rec.x["put_seq"] = len(self.log)
                 obs["item"] = rec
             elif k == "get":
@@ -300,10 +302,14 @@ class World:
                 self.step_kernel()
             elif k == "adv":
                 self.steps_this_instant = 0
+                t_before = self.now
                 self.step_kernel()
+                if self.now > t_before:
+                    self.puts_now = 0
             elif k == "advp":
                 g = self.grid
                 self.steps_this_instant = 0
+                self.puts_now = 0
                 env._now = (math.floor(self.now / g + 1e-9) + 1) * g
             else:
                 raise ValueError(op)
